@@ -166,6 +166,8 @@ def gen(item, rng, tier):
     flags_static = True
     written = set()
     sp_loaded = stack_used = False
+    e_main = int(rng.random() < 0.25)                                     # big-endian data in the main program: memory effects are compared in that byte order
+    bo = 'big' if e_main else 'little'
     for i in range(n):
         last = i == n - 1
         if i == special:
@@ -213,6 +215,8 @@ def gen(item, rng, tier):
         elif t == 'multi':
             kindm = rng.choice(['stm', 'ldm', 'ldrd', 'strd', 'nop', 'nopw', 'msr_x', 'msr_x', 'hi16', 'hi16', 'adr', 'ldrex', 'misc32'] +
                                ([] if sp_loaded else ['push', 'pop', 'push', 'pop', 'popw', 'spadj']))
+            if kindm == 'msr_x' and e_main:
+                kindm = 'nop'                         # (MSR CPSR_x from a pointer register would clear the E bit the program runs with)
             if kindm in ('push', 'pop', 'popw', 'spadj'):
                 stack_used = True                     # (only in blocks in which no slot loads SP from memory)
             if kindm in ('stm', 'ldm'):
@@ -317,7 +321,7 @@ def gen(item, rng, tier):
     mpu[5] = (1 | 4 << 1, DENY, 0) if kind == 'dabt' else (0, DENY, 0)
     extra = dict(G.mpu_sys(mpu))
     ee = int(rng.random() < 0.3)
-    st = P.main_state(rng, cfg, mode, 1, te, extra, e=0, ee=ee)          # the block's memory effects are read little-endian: E=0 in the main program
+    st = P.main_state(rng, cfg, mode, 1, te, extra, e=e_main, ee=ee)
     st['sys']['sctlr'] = G.sctlr_value(m=1, a=0, u=1, te=te, v=0, br=1, ee=ee)
     st['cpsr'] = (st['cpsr'] & 0x0FFFFFFF) | nzcv << 28
     for i, v in enumerate(regs0):
@@ -334,14 +338,14 @@ def gen(item, rng, tier):
         tgt = addrs[-1] + size_of(slots[-1]['w'], True) + 2        # just behind the marker
         st['R']['R9usr'] = tgt | 1
         slots[-1]['target'] = tgt
-        G.set_data(devices[2], 0x4FC, (tgt | 1).to_bytes(4, 'little'))
+        G.set_data(devices[2], 0x4FC, (tgt | 1).to_bytes(4, bo))
         # TBB [r6, r10] / TBH [r6, r11, LSL #1]: r10 = 0xF8, r11 = 0x7A (table entries at DBASE+0xF8 / +0xF4), entry 1 = skip the 16-bit marker
         st['R']['R10usr'], st['R']['R11usr'] = 0xF8, 0x7A
         G.set_data(devices[2], 0x4F8, bytes([1]))
-        G.set_data(devices[2], 0x4F4, (1).to_bytes(2, 'little'))
+        G.set_data(devices[2], 0x4F4, (1).to_bytes(2, bo))
         if slots[-1].get('form') in ('poppc', 'poppcw'):
             top = P.STACK_TOP['usr' if mode in ('usr', 'sys') else 'svc']
-            G.set_data(devices[3], top - G.STACKS, (0x4444).to_bytes(4, 'little') + (tgt | 1).to_bytes(4, 'little'))
+            G.set_data(devices[3], top - G.STACKS, (0x4444).to_bytes(4, bo) + (tgt | 1).to_bytes(4, bo))
     events = []
     pos = None
     if kind in ('irq', 'fiq'):
@@ -352,7 +356,7 @@ def gen(item, rng, tier):
     elif special is not None:
         pos = special + 1
     hl = sum(v[2] for v in hinfo.values())
-    meta = {'thumb': 1, 'te': te, 'mode': mode, 'returns': rets, 'main_lo': G.CODE, 'main_hi': G.CODE + len(code), 'handlers': {k: list(v) for k, v in hinfo.items()},
+    meta = {'thumb': 1, 'te': te, 'bo': bo, 'e': e_main, 'mode': mode, 'returns': rets, 'main_lo': G.CODE, 'main_hi': G.CODE + len(code), 'handlers': {k: list(v) for k, v in hinfo.items()},
             'firstcond': f, 'mask': mask, 'nzcv': nzcv, 'kind': kind, 'pos': pos, 'slots': slots, 'slot_addrs': addrs, 'special': special,
             'it_addr': G.CODE + pro_len, 'epi_addr': (a + (2 if slots[-1]['t'] == 'b' else 0) + 2) if epilogue else None, 'pro_len': pro_len}
     return {'scenario': 'it_block', 'cores': [core], 'meta': meta, 'events': events, 'max_ticks': len(words) + 3 * (hl + 10) + 40}
@@ -451,9 +455,9 @@ class ITObserver:
                 b.violate('it.effect', t, 'passed_condition_no_effect', 'slot %d: r%d = %#x, expected %#x' % (i, slot['rd'], post_r(slot['rd']), slot['imm']))
             elif t in ('dp16', 'chg') and post_r(slot['rd']) == pre_r(slot['rd']) and slot.get('nonvacuous', True):
                 b.violate('it.effect', t, 'passed_condition_no_effect', 'slot %d (%s) left r%d unchanged' % (i, slot.get('name', t), slot['rd']))
-            elif t == 'str' and M.peek(arm, slot['addr'], 4) != pre_r(slot['rt']).to_bytes(4, 'little'):
+            elif t == 'str' and M.peek(arm, slot['addr'], 4) != pre_r(slot['rt']).to_bytes(4, meta.get('bo', 'little')):
                 b.violate('it.effect', t, 'passed_condition_no_effect', 'slot %d: store did not land' % i)
-            elif t == 'ldr' and post_r(slot['rd']) != int.from_bytes(M.peek(arm, slot['addr'], 4), 'little'):
+            elif t == 'ldr' and post_r(slot['rd']) != int.from_bytes(M.peek(arm, slot['addr'], 4), meta.get('bo', 'little')):
                 b.violate('it.effect', t, 'passed_condition_no_effect', 'slot %d: load did not land' % i)
             if t in ('mov', 'dp16', 'chg', 'str', 'ldr', 'nop', 'b') and slot['t'] != 'any' and not flags_same:
                 b.violate('it.flags', slot.get('name', t), 'flags_set_inside_it_block', 'slot %d (%s, word %#x) changed NZCV %x -> %x inside the IT block' % (
